@@ -109,17 +109,8 @@ def fold_at_call_sites(model: Model, folder: Folder, fi, expr: ast.expr, self_cl
 
 def stored_constructor_tag(model: Model, cls: str, attr: str) -> bool:
     """self.<attr> is only ever bound, in the class's __init__, to the constructor's own `tag` parameter"""
-    stores = []
-    for c in model.classes[cls].mro:
-        ci = model.classes.get(c)
-        for m in (ci.methods.values() if ci else ()):
-            for n in walk_no_nested(m.node):
-                if isinstance(n, (ast.Assign, ast.AnnAssign, ast.AugAssign)):
-                    for t_ in (n.targets if isinstance(n, ast.Assign) else [n.target]):
-                        if isinstance(t_, ast.Attribute) and t_.attr == attr and isinstance(t_.value, ast.Name) and t_.value.id == "self":
-                            stores.append((m, n))
-    return bool(stores) and all(m.name == "__init__" and isinstance(n, (ast.Assign, ast.AnnAssign)) and isinstance(n.value, ast.Name) and n.value.id == "tag"
-                                and "tag" in m.params() for m, n in stores)
+    from ..srcmodel import attr_is_constructor_param
+    return attr_is_constructor_param(model, cls, attr) == "tag"
 
 
 def check_tags(model: Model, run: Run, folder: Folder) -> bool:
